@@ -26,6 +26,7 @@ import CtyModel.Lemmas.WalkTrans
 import CtyModel.Lemmas.WalkReplace
 import CtyModel.Lemmas.WalkMarks
 import CtyModel.Lemmas.WalkRawEq
+import CtyModel.Lemmas.PathFnsTie
 namespace CtyModel
 namespace C19
 open Walk
@@ -433,6 +434,142 @@ example : (transform X0 Sched.sorted sampleCb sampleList).2 =
     .ok ⟨.list .string, .seq [.s "a", .s "z"]⟩ := by rfl
 
 example : (unmarkDeepWithPaths X1 Sched.sorted sample).map (·.2.length) = .ok 2 := by rfl
+
+/-! ## The regenerated model
+
+`extract/translate_path.go` translates `GetAttrStep.Apply`, `IndexStep.Apply`, `Path.Apply`, `Path.LastStep`,
+`Path.Equals`, `Path.HasPrefix`, `Path.Copy`, the path constructors and `pathSetRules.Hash` / `Equivalent` /
+`SameRules` from go-cty's source into Lean on every check (`Generated/PathFns.lean`; the `Value` and `Type` methods
+they call are the hand-written operations model, `CtyModel/PathGo.lean` says how Go data is read).  The
+`generated_*_eq` theorems say that what the source text computes is what the hand-written model computes — value,
+error class and panic alike, for all inputs — so every theorem above about paths and path sets holds of the
+translated source; the `*_generated` corollaries state the property clauses directly about it.  A source edit that
+changes the meaning makes these proofs fail; an edit that leaves the translated fragment makes the extractor fail. -/
+
+/-- the two `Apply` methods of the steps, as written in the source, are the model's `PathStep.apply` -/
+theorem generated_step_apply_eq (s : PathStep) (v : Value) :
+    (match s with
+      | .getAttr n => Generated.PathFns.GetAttrStep_Apply n v
+      | .index k => Generated.PathFns.IndexStep_Apply k v) = s.apply v := by
+  cases s
+  · exact PathFnsTie.getAttrStep_apply_eq _ v
+  · exact PathFnsTie.indexStep_apply_eq _ v
+
+/-- `Path.Apply` as written in the source is the model's `Path.apply`: same value, same error class, same panic -/
+theorem generated_path_apply_eq (p : Path) (v : Value) : Generated.PathFns.Path_Apply p v = Path.apply p v :=
+  PathFnsTie.path_apply_eq p v
+
+/-- `Path.LastStep` as written in the source is the model's `Path.lastStep` -/
+theorem generated_path_lastStep_eq (p : Path) (v : Value) :
+    Generated.PathFns.Path_LastStep p v = Path.lastStep p v := PathFnsTie.path_lastStep_eq p v
+
+/-- `pathSetRules.Hash` as written in the source — which bytes are written per step kind included — is the model's hash -/
+theorem generated_hash_eq (p : Path) : Generated.PathFns.pathSetRules_Hash p = .ok (PathSet.hash p) :=
+  PathFnsTie.hash_eq p
+
+/-- `pathSetRules.Equivalent` as written in the source is the model's `PathSet.equiv`, for all paths -/
+theorem generated_equivalent_eq (p q : Path) :
+    Generated.PathFns.pathSetRules_Equivalent p q = PathSet.equiv p q := PathFnsTie.equivalent_eq p q
+
+/-- the rules built from the translated `Hash` and `Equivalent` are the model's rules -/
+theorem generated_rules_eq : PathFnsTie.genGoodRules = PathSet.goodRules := PathFnsTie.genGoodRules_eq
+
+/-- reported paths lead back, about the translated `Path.Apply` -/
+theorem walk_paths_lead_back_generated {X : SetOracle} (hX : IterPerm X) (root : Value)
+    (hs : shapedV root = true) (p : Path) (n : Value) (hv : (p, n) ∈ (walk X descend root).1) :
+    ∃ pos, nodeAt X root pos = some n ∧ pathAt X root pos = some p ∧
+      (noSetAt X root pos = true →
+        ∃ a, Generated.PathFns.Path_Apply p root = .ok a ∧ a.unmark = n.unmark ∧
+          ∀ m, m ∈ a.marks ↔ (m ∈ n.marks ∨
+            ∃ q s anc, pos = q ++ s ∧ s ≠ [] ∧ nodeAt X root q = some anc ∧ m ∈ anc.marks)) := by
+  simp only [generated_path_apply_eq]
+  exact walk_paths_lead_back hX root hs p n hv
+
+/-- one step, about the translated `GetAttrStep.Apply` / `IndexStep.Apply`: succeeds exactly when it names an
+existing member, never panics, returns a shaped value of a well-formed type -/
+theorem apply_step_ok_iff_exists_generated (s : PathStep) (v : Value) (hs : shapedV v = true)
+    (hw : Ty.wf v.ty = true)
+    (hk : (match s with | .index k => shapedV k | .getAttr _ => true) = true) :
+    let r := match s with
+      | .getAttr n => Generated.PathFns.GetAttrStep_Apply n v
+      | .index k => Generated.PathFns.IndexStep_Apply k v
+    (r.isOk = true ↔ stepExists s v = true) ∧ r.isPanic = false ∧
+      ∀ v', r = .ok v' → shapedV v' = true ∧ Ty.wf v'.ty = true := by
+  simp only [generated_step_apply_eq]
+  exact apply_step_ok_iff_exists s v hs hw hk
+
+/-- whole paths, about the translated `Path.Apply`: it succeeds exactly when every step names an existing member
+of the value reached by the steps before it, and does not panic -/
+theorem apply_ok_iff_steps_exist_generated (p : Path) (v : Value) (hs : shapedV v = true)
+    (hw : Ty.wf v.ty = true) (hk : keysShaped p = true) :
+    ((Generated.PathFns.Path_Apply p v).isOk = true ↔ stepsExist p v = true) ∧
+      (Generated.PathFns.Path_Apply p v).isPanic = false := by
+  rw [generated_path_apply_eq]
+  exact apply_ok_iff_steps_exist p v hs hw hk
+
+/-- `Path.LastStep`, about the translated source: nil step for the empty path; otherwise it succeeds exactly when
+every step but the last names an existing member, returns the last step, and never panics (in particular neither
+`p[:len(p)-1]` nor `p[len(p)-1]` is out of range) -/
+theorem lastStep_generated (p : Path) (v : Value) (hs : shapedV v = true)
+    (hw : Ty.wf v.ty = true) (hk : keysShaped p.dropLast = true) :
+    (p = [] → Generated.PathFns.Path_LastStep p v = .ok (v, none)) ∧
+    ((Generated.PathFns.Path_LastStep p v).isOk = true ↔ stepsExist p.dropLast v = true) ∧
+    (Generated.PathFns.Path_LastStep p v).isPanic = false ∧
+    (∀ w s, Generated.PathFns.Path_LastStep p v = .ok (w, s) → s = p.getLast? ∧ Path.apply p.dropLast v = .ok w) := by
+  rw [generated_path_lastStep_eq]
+  have ha := apply_ok_iff_steps_exist p.dropLast v hs hw hk
+  refine ⟨fun h => by subst h; rfl, ?_, ?_, ?_⟩
+  · rw [← ha.1]
+    cases hl : p.getLast? with
+    | none =>
+      have : p = [] := by simpa using hl
+      subst this; simp [Path.lastStep, Path.apply, Res.isOk]
+    | some l => simp only [Path.lastStep, hl]; cases Path.apply p.dropLast v <;> simp [Res.map, Res.isOk]
+  · cases hl : p.getLast? with
+    | none => simp [Path.lastStep, hl, Res.isPanic]
+    | some l =>
+      have := ha.2
+      simp only [Path.lastStep, hl]; cases h : Path.apply p.dropLast v <;> simp_all [Res.map, Res.isPanic]
+  · intro w s h
+    cases hl : p.getLast? with
+    | none =>
+      have : p = [] := by simpa using hl
+      subst this
+      simp only [Path.lastStep, List.getLast?_nil, Res.ok.injEq, Prod.mk.injEq] at h
+      simp [h.1.symm, h.2.symm, Path.apply]
+    | some l =>
+      simp only [Path.lastStep, hl] at h
+      cases ha' : Path.apply p.dropLast v <;> simp_all [Res.map]
+
+/-- the translated rules are lawful on paths whose index keys are known numbers or strings (marked or not) -/
+theorem pathset_rules_lawful_generated : PathFnsTie.genGoodRules.Lawful := by
+  rw [generated_rules_eq]; exact pathset_rules_lawful
+
+/-- the hash of the translated source writes one `#` for EVERY index step, whatever its key: two paths that differ
+only in their index keys hash alike (what `Equivalent` needs, since keys that are `Equals` need not be the same
+value — a folded-in key would separate `1` from a marked `1`) -/
+theorem hash_ignores_index_keys_generated (pre post : Path) (k k' : Value) :
+    Generated.PathFns.pathSetRules_Hash (pre ++ .index k :: post) =
+      Generated.PathFns.pathSetRules_Hash (pre ++ .index k' :: post) := by
+  simp only [generated_hash_eq, PathSet.hash]
+  have : ∀ pre : Path, PathSet.hashBytes (pre ++ .index k :: post) = PathSet.hashBytes (pre ++ .index k' :: post) := by
+    intro pre
+    induction pre with
+    | nil => simp [PathSet.hashBytes]
+    | cons s r ih => cases s <;> simp [PathSet.hashBytes, ih]
+  rw [this]
+
+/-- PathSet refines sets of paths for all histories, with the rules as translated from the source -/
+theorem pathset_refines_generated (ops : List (PathSet.PSOp PathSet.GoodPath))
+    (st : List (SetImpl PathSet.GoodPath))
+    (h : ∀ i, SetImpl.Inv PathFnsTie.genGoodRules (SetImpl.getReg st i)) :
+    let R := PathFnsTie.genGoodRules
+    let out := PathSet.psRun R PathSet.prefixesG ops st
+    (∀ i, SetImpl.Inv R (SetImpl.getReg out.1 i)) ∧
+    SetImpl.absRegs R out.1 = PathSet.psSpecRun R PathSet.prefixesG ops (SetImpl.absRegs R st) ∧
+    PathSet.PSOutsOk R PathSet.prefixesG (SetImpl.absRegs R st) ops out.2 := by
+  rw [generated_rules_eq] at h ⊢
+  exact pathset_refines ops st h
 
 end C19
 end CtyModel
